@@ -2,6 +2,7 @@ import PfVerif.Driver.C01
 import PfVerif.Driver.C12
 import PfVerif.Driver.C20
 import PfVerif.Driver.BS
+import PfVerif.Driver.Hedge
 namespace PfVerif.Driver
 open Lean
 
@@ -22,6 +23,8 @@ def dispatch (op : String) (j : Json) : R Json :=
   | "bisect" => opBisect j
   | "bs" => opBs j
   | "ww_full" => opWwFull j
+  | "feat" => opFeat j
+  | "hedge" => opHedge j
   | _ => .error s!"unknown op {op}"
 
 end PfVerif.Driver
